@@ -1,5 +1,7 @@
 import Litep2pVerif.Common.Parse
 import Litep2pVerif.Model.Notif.Sys
+import Litep2pVerif.Model.Notif.Handshake
+import Litep2pVerif.Model.Notif.Handle
 /-!
 Line-protocol driver of the notification model (C11). The driver plays the same environment as the
 adapter src/verif/c11.rs: the transport, the remote end of every in-memory pipe, the user of the handle,
@@ -10,6 +12,8 @@ of the driver is an execution of the transition system the theorems quantify ove
 -/
 namespace Litep2pVerif.Driver.C11
 open Litep2pVerif Litep2pVerif.Notif Parse
+open Litep2pVerif.NotifHs (HsState)
+open Litep2pVerif.NotifHandle (Cmd BatchRes)
 
 structure PipeSt where
   peer : Nat
@@ -27,7 +31,16 @@ structure ConnInfo where
   gen : Nat
   cap : Nat
   drain : Bool
-  queued : Nat := 0
+  /-- commands in the connection's channel (`some sid` = OpenSubstream, `none` = ForceClose) -/
+  queued : List (Option Sid) := []
+
+/-- One entry of the handshake service: its substream is pipe `pipe`. -/
+structure HsE where
+  peer : Nat
+  dir : Dir
+  pipe : Nat
+  state : HsState
+  expired : Bool := false
 
 inductive EvItem
   | validate (hs : Hs) (pipe : Pipe)
@@ -39,8 +52,8 @@ inductive EvItem
 structure TaskAux where
   id : Tid
   peer : Nat
-  queue : List (List Nat) := []
-  sinkDropped : Bool := false
+  queue : List (List Nat) := []      -- sync queue
+  aqueue : List (List Nat) := []     -- async queue
   woken : Bool := true
   /-- not scheduled for the time being (`hold`): stays woken, is not polled -/
   held : Bool := false
@@ -61,15 +74,32 @@ structure World where
   hvalid : List (Nat × Pipe) := []
   known : List Nat := []
   transportQ : List (Nat × Act) := []
-  cmdQ : List (Nat × Bool) := []            -- (peer, open? else close)
-  fcQ : List Nat := []                      -- ForceClose commands from the handle
+  userQ : List Cmd := []                    -- commands sent by the handle, not yet with the protocol
+  cmdQ : List Cmd := []                     -- the protocol's command channel
+  cmdHold : Bool := false
+  protoHold : Bool := false
+  heldConns : List Nat := []                -- connections established while the protocol loop is held
+  heldPipePeer : Option Nat := none         -- the one peer whose remote side acts while the protocol loop is held
+  protoGone : Bool := false
+  obsOrders : List (List Nat) := []         -- checker mode: set orders observed on the implementation
+  orders : List String := []
+  sinks : List (Option (Tid × Nat)) := []   -- sink clones handed out by `notification_sink` (task, peer)
+  clogged : List Nat := []
+  heldPeers : List Nat := []
+  pendSync : List Nat := []                 -- peers with sync / async sends queued while their task is held
+  pendAsync : List Nat := []
+  maxSize : Nat := 64
+  syncCap : Nat := 16
+  asyncCap : Nat := 4
+  hsLocal : List Nat := [1, 2, 3, 4]
+  hsE : List HsE := []
   validQ : List (Nat × Pipe × Bool) := []
   readyTimers : List Nat := []
   noticeQ : List Nat := []
-  hsReady : List (Nat × Dir × Hs) := []
-  hsToSend : List (Nat × Dir) := []
+  hsReady : List (NotifHs.Key × List Nat) := []
   taux : List TaskAux := []
-  calls : List String := []
+  calls : List (Nat × String) := []         -- transport calls of the current settle (peer, text)
+  callsDone : List String := []
   stalledQ : List (Nat × Nat) := []         -- (pipe, peer): closes suspended by `stall` during this op
   panicked : Bool := false
   configured : Bool := false
@@ -92,6 +122,14 @@ def errWord : Err → String
 def dirWord : Dir → String
   | .inbound => "in" | .outbound => "out"
 
+/-- `HashMap::insert` into `HandshakeService::substreams`. -/
+def hsInsert (w : World) (e : HsE) : World :=
+  { w with hsE := w.hsE.filter (fun x => !(x.peer = e.peer && x.dir = e.dir)) ++ [e] }
+
+/-- `remove_outbound` / `remove_inbound` (`NotifHs.Service.remove`: the queued results go too). -/
+def hsRemove (w : World) (k : NotifHs.Key) : World :=
+  { w with hsE := w.hsE.filter (fun x => !(x.peer = k.1 && x.dir = k.2)), hsReady := w.hsReady.filter (·.1 ≠ k) }
+
 /-- Interpret the environment-visible part of one step: diff of the log, transport calls, pipes
 closed by the protocol, tasks spawned, notices. -/
 def afterStep (w : World) (p : Nat) (old new : PeerSys) (outs : List Out) : World := Id.run do
@@ -111,24 +149,25 @@ def afterStep (w : World) (p : Nat) (old new : PeerSys) (outs : List Out) : Worl
       match w.conns.lookup p with
       | some c =>
         if c.drain then
-          w := { w with calls := w.calls ++ [s!"open({p},s{sid})"], reqs := w.reqs ++ [(sid, p, c.gen, false)] }
+          w := { w with calls := w.calls ++ [(p, s!"open({p},s{sid})")], reqs := w.reqs ++ [(sid, p, c.gen, false)] }
         else
-          w := { w with conns := (p, { c with queued := c.queued + 1 }) :: w.conns.filter (·.1 ≠ p) }
+          w := { w with conns := (p, { c with queued := c.queued ++ [some sid] }) :: w.conns.filter (·.1 ≠ p) }
       | none => pure ()
     | .forceClose =>
       match w.conns.lookup p with
       | some c =>
-        if c.drain then w := { w with calls := w.calls ++ [s!"fc({p})"] }
-        else if c.queued < c.cap then
-          w := { w with conns := (p, { c with queued := c.queued + 1 }) :: w.conns.filter (·.1 ≠ p) }
+        if c.drain then w := { w with calls := w.calls ++ [(p, s!"fc({p})")] }
+        else if c.queued.length < c.cap then
+          w := { w with conns := (p, { c with queued := c.queued ++ [none] }) :: w.conns.filter (·.1 ≠ p) }
       | none => pure ()
     | .closePipe k =>
       if h : k < w.pipes.size then
         w := { w with pipes := w.pipes.set k { w.pipes[k] with localClosed := true } }
-    | .negOut _ => w := { w with hsToSend := w.hsToSend ++ [(p, .outbound)] }
-    | .sendHs _ => w := { w with hsToSend := w.hsToSend ++ [(p, .inbound)] }
-    | .rmOut => w := { w with hsToSend := w.hsToSend.filter (· ≠ (p, .outbound)) }
-    | .rmIn => w := { w with hsToSend := w.hsToSend.filter (· ≠ (p, .inbound)) }
+    | .negOut k => w := hsInsert w { peer := p, dir := .outbound, pipe := k, state := .sendHandshake }
+    | .readHs k => w := hsInsert w { peer := p, dir := .inbound, pipe := k, state := .readHandshake }
+    | .sendHs k => w := hsInsert w { peer := p, dir := .inbound, pipe := k, state := .sendHandshake }
+    | .rmOut => w := hsRemove w (p, .outbound)
+    | .rmIn => w := hsRemove w (p, .inbound)
     | .spawn t _ _ => w := { w with taux := w.taux ++ [{ id := t, peer := p }] }
     | .shutdown t => w := { w with taux := w.taux.map fun a => if a.id = t then { a with woken := true } else a }
     | _ => pure ()
@@ -145,7 +184,7 @@ def actTask (w : World) (p : Nat) (a : Act) : World := act w p a
 fails when the command channel is full. -/
 def openAttempt (w : World) (p : Nat) : World × Bool × Sid :=
   match w.conns.lookup p with
-  | some c => ({ w with nextSid := w.nextSid + 1 }, c.drain || c.queued < c.cap, w.nextSid)
+  | some c => ({ w with nextSid := w.nextSid + 1 }, c.drain || c.queued.length < c.cap, w.nextSid)
   | none => (w, false, w.nextSid)
 
 -- ---------------------------------------------------------------- handshake service
@@ -155,77 +194,54 @@ def pipeGet (w : World) (k : Nat) : PipeSt := w.pipes.getD k { peer := 0, inboun
 def pipeSet (w : World) (k : Nat) (f : PipeSt → PipeSt) : World :=
   if h : k < w.pipes.size then { w with pipes := w.pipes.set k (f w.pipes[k]) } else w
 
-def localHandshake : List Nat := [1, 2, 3, 4]
+def subOf (x : PipeSt) : NotifHs.Sub :=
+  { toLocal := x.toLocal, remoteClosed := x.remoteClosed, reset := x.reset, localClosed := x.localClosed,
+    toRemote := x.toRemote }
 
-/-- Poll the handshake service once: `some (peer, event)` or `none` (pending). -/
-def pollHandshake (w : World) : World × Option (Nat × Act) := Id.run do
-  let mut w := w
-  -- pop_event
-  let mut ready := w.hsReady
-  let mut found : Option (Nat × Dir × Hs) := none
-  while found.isNone && !ready.isEmpty do
-    match ready with
-    | [] => pure ()
-    | (p, d, hs) :: rest =>
-      ready := rest
-      let s := getPeer w p
-      let ex := match d with | .outbound => s.hsOut.isSome | .inbound => s.hsIn.isSome
-      if ex then found := some (p, d, hs)
-  w := { w with hsReady := ready }
-  let mk (w : World) (p : Nat) (d : Dir) (hs : Hs) : World × Option (Nat × Act) :=
-    let t := w.nextTask
-    ({ w with nextTask := w.nextTask + 1 }, some (p, .hsNegotiated d hs w.auto t))
-  match found with
-  | some (p, d, hs) => return mk w p d hs
-  | none => pure ()
-  -- poll every entry
-  let ps := (w.peers.map (·.1)).mergeSort (· ≤ ·)
-  for p in ps do
-    for d in [Dir.inbound, Dir.outbound] do
-      let s := getPeer w p
-      let entry : Option (Pipe × Bool) := match d with
-        | .outbound => s.hsOut.map fun k => (k, false)
-        | .inbound => s.hsIn
-      match entry with
-      | none => pure ()
-      | some (k, sendOnly) =>
-        let pp := pipeGet w k
-        -- send phase
-        if w.hsToSend.contains (p, d) then
-          if pp.reset || pp.localClosed then
-            return (w, some (p, .hsError d))
-          w := pipeSet w k fun x => { x with toRemote := x.toRemote ++ [localHandshake] }
-          w := { w with hsToSend := w.hsToSend.filter (· ≠ (p, d)) }
-          if sendOnly then
-            w := { w with hsReady := w.hsReady ++ [(p, d, hsToken [])] }
-        if sendOnly then
-          pure ()
-        else
-          -- read phase
-          let pp := pipeGet w k
-          if pp.reset then return (w, some (p, .hsError d))
-          match pp.toLocal with
-          | f :: rest =>
-            w := pipeSet w k fun x => { x with toLocal := rest }
-            w := { w with hsReady := w.hsReady ++ [(p, d, hsToken f)] }
-          | [] => if pp.remoteClosed then return (w, some (p, .hsError d))
-  match w.hsReady with
-  | (p, d, hs) :: rest => return mk { w with hsReady := rest } p d hs
-  | [] => return (w, none)
+def dirRank : Dir → Nat | .inbound => 0 | .outbound => 1
+
+/-- Poll the handshake service once (`NotifHs.poll` on the entries with their substreams loaded from the
+pipes): `some (peer, event)` or `none` (pending). The entries are visited by peer, inbound first. -/
+def pollHandshake (w : World) : World × Option (Nat × Act) :=
+  let svc : NotifHs.Service :=
+    { entries := w.hsE.map fun h =>
+        { peer := h.peer, dir := h.dir, sub := subOf (pipeGet w h.pipe), expired := h.expired, state := h.state },
+      ready := w.hsReady }
+  let order := (w.hsE.map fun h => (h.peer, h.dir)).mergeSort fun a b =>
+    a.1 < b.1 || (a.1 = b.1 && dirRank a.2 ≤ dirRank b.2)
+  let r := NotifHs.poll w.maxSize w.hsLocal svc order
+  -- store the substreams and entry states back
+  let after := NotifHs.subsAfter w.maxSize w.hsLocal svc order
+  let w1 := w.hsE.foldl (fun w h =>
+    match after.find? (fun e => e.peer = h.peer && e.dir = h.dir) with
+    | some e => pipeSet w h.pipe fun x => { x with toLocal := e.sub.toLocal, toRemote := e.sub.toRemote }
+    | none => w) w
+  let w2 := { w1 with
+    hsE := w.hsE.filterMap fun h =>
+      match r.1.find (h.peer, h.dir) with
+      | some e => some { h with state := e.state }
+      | none => none,
+    hsReady := r.1.ready }
+  match r.2 with
+  | none => (w2, none)
+  | some (.negotiated p d hs) =>
+    ({ w2 with nextTask := w2.nextTask + 1 }, some (p, .hsNegotiated d (hsToken hs) w2.auto w2.nextTask))
+  | some (.error p d) => (w2, some (p, .hsError d))
+  | some .bug => ({ w2 with panicked := true }, none)
 
 -- ---------------------------------------------------------------- protocol loop
 
 /-- Handle one event of the protocol loop in the order of the biased `select!`; `none` = idle. -/
 def nextEvent (w : World) : Option World := Id.run do
   -- 1. handshake service
-  let anyHs := w.peers.any fun (_, s) => s.hsOut.isSome || s.hsIn.isSome
-  if anyHs then
+  if !w.hsE.isEmpty then
     let (w1, r) := pollHandshake w
     match r with
     | some (p, a) => return some (act w1 p a)
     | none =>
+      if w1.panicked then return some w1
       -- state of the service may have advanced (handshake written)
-      if w1.hsReady.length ≠ w.hsReady.length || w1.hsToSend.length ≠ w.hsToSend.length then
+      if w1.hsReady.length ≠ w.hsReady.length || w1.hsE.any (fun h => w.hsE.any fun g => g.peer = h.peer && g.dir = h.dir && g.state ≠ h.state) then
         return some w1
   -- 2. shutdown notices
   match w.noticeQ with
@@ -255,16 +271,15 @@ def nextEvent (w : World) : Option World := Id.run do
     let (w, ok, sid) := if needsOpen then openAttempt w p else (w, false, w.nextSid)
     return some (act w p (.validation vid acc ok sid))
   | [] => pure ()
-  -- 6. user commands
-  match w.fcQ with
-  | p :: rest =>
-    let w := { w with fcQ := rest }
-    return some (afterStep w p (getPeer w p) (getPeer w p) [.forceClose])
-  | [] => pure ()
+  -- 6. user commands: one command per iteration, the whole peer set of a command at once
   match w.cmdQ with
-  | (p, isOpen) :: rest =>
+  | .forceClose p :: rest =>
     let w := { w with cmdQ := rest }
-    if isOpen then
+    return some (afterStep w p (getPeer w p) (getPeer w p) [.forceClose])
+  | .openSet ps :: rest =>
+    let w := { w with cmdQ := rest }
+    return some (ps.foldl (fun w p =>
+      if w.panicked then w else
       let s := getPeer w p
       -- `service.open_substream` is called in `Closed` unless a pending substream is reused
       let needsOpen := match s.slot with
@@ -272,14 +287,21 @@ def nextEvent (w : World) : Option World := Id.run do
         | some (.closed (some x)) => !s.pending.contains x
         | _ => false
       let (w, ok, sid) := if needsOpen then openAttempt w p else (w, false, w.nextSid)
-      return some (act w p (.cmdOpen w.dial (w.known.contains p) ok sid))
-    else
-      return some (act w p .cmdClose)
+      act w p (.cmdOpen w.dial (w.known.contains p) ok sid)) w)
+  | .closeSet ps :: rest =>
+    let w := { w with cmdQ := rest }
+    return some (ps.foldl (fun w p => if w.panicked then w else act w p .cmdClose) w)
   | [] => return none
 
 -- ---------------------------------------------------------------- connection tasks
 
 def auxOf (w : World) (t : Tid) : Option TaskAux := w.taux.find? (·.id = t)
+
+/-- Some `NotificationSink` of the task's queues still exists: the one in `handle.peers`, a clone handed out by
+`notification_sink`, or the one travelling in a `NotificationStreamOpened` event not yet polled. -/
+def sinkAlive (w : World) (t : Tid) : Bool :=
+  w.view.any (·.2 = t) || w.sinks.any (fun x => x.map (·.1) = some t) ||
+    w.evq.any fun (_, e) => match e with | .opened _ _ t' => t' = t | _ => false
 
 def setAux (w : World) (t : Tid) (f : TaskAux → TaskAux) : World :=
   { w with taux := w.taux.map fun a => if a.id = t then f a else a }
@@ -306,15 +328,17 @@ def pollTask (w : World) (t : Tid) : Nat → World
       match k.phase with
       | .running =>
         if k.signalled then pollTask (actTask w p (.taskSeesSignal t)) t fuel
-        else if a.sinkDropped && a.queue.isEmpty then pollTask (actTask w p (.taskSeesClose t)) t fuel
+        else if !sinkAlive w t && a.queue.isEmpty && a.aqueue.isEmpty then pollTask (actTask w p (.taskSeesClose t)) t fuel
         else
-          -- outbound queue
+          -- outbound queues (never both non-empty, see `mixGuard`): `start_send` refuses an oversized
+          -- notification; what this poll handed to the substream before it is never flushed
+          let q := a.queue ++ a.aqueue
+          let w := setAux w t fun a => { a with queue := [], aqueue := [] }
           let po := pipeGet w k.outPipe
-          if !a.queue.isEmpty && (po.reset || po.localClosed) then
-            pollTask (actTask (setAux w t fun a => { a with queue := [] }) p (.taskSeesClose t)) t fuel
+          if q.any (fun f => f.length > w.maxSize) then pollTask (actTask w p (.taskSeesClose t)) t fuel
+          else if !q.isEmpty && (po.reset || po.localClosed) then pollTask (actTask w p (.taskSeesClose t)) t fuel
           else
-            let w := pipeSet w k.outPipe fun x => { x with toRemote := x.toRemote ++ a.queue }
-            let w := setAux w t fun a => { a with queue := [] }
+            let w := pipeSet w k.outPipe fun x => { x with toRemote := x.toRemote ++ q }
             -- poll_flush on a reset pipe fails
             if po.reset then pollTask (actTask w p (.taskSeesClose t)) t fuel
             else
@@ -324,7 +348,8 @@ def pollTask (w : World) (t : Tid) : Nat → World
                 match pi.toLocal with
                 | f :: rest =>
                   let w := pipeSet w k.inPipe fun x => { x with toLocal := rest }
-                  pollTask { w with notifq := w.notifq ++ [(p, f)] } t fuel
+                  if f.length > w.maxSize then pollTask (actTask w p (.taskSeesClose t)) t fuel
+                  else pollTask { w with notifq := w.notifq ++ [(p, f)] } t fuel
                 | [] =>
                   if pi.remoteClosed then pollTask (actTask w p (.taskSeesClose t)) t fuel else w
       | .closing _ =>
@@ -365,11 +390,35 @@ def settle (w : World) : Nat → World
       | n + 1 => match nextEvent w with
         | some w' => if w'.panicked then w' else proto w' n
         | none => w
-    let w := proto w 256
+    let w := if w.protoHold || w.protoGone then w else proto w 256
     if w.panicked then w else
     let (w, any) := pollTasks w
-    let more := !w.noticeQ.isEmpty || !w.transportQ.isEmpty || !w.validQ.isEmpty || !w.cmdQ.isEmpty
+    let more := !(w.protoHold || w.protoGone) &&
+      (!w.noticeQ.isEmpty || !w.transportQ.isEmpty || !w.validQ.isEmpty || !w.cmdQ.isEmpty)
     if any || more then settle w fuel else w
+
+/-- The adapter reads the connections' command channels after each settle, by peer. -/
+def flushCalls (w : World) : World :=
+  { w with callsDone := w.callsDone ++ (w.calls.mergeSort (fun a b => a.1 ≤ b.1)).map (·.2), calls := [] }
+
+def isPerm (a b : List Nat) : Bool :=
+  a.length = b.length && a.all (fun x => b.contains x) && b.all (fun x => a.contains x)
+
+/-- The adapter hands the commands of the handle to the protocol (unless `cmdhold`); the iteration order of a
+multi-peer `OpenSubstream` set is taken from the implementation's observation (any permutation is allowed). -/
+def forward (w : World) : World :=
+  if w.cmdHold then w else
+  w.userQ.foldl (fun w c =>
+    match c with
+    | .openSet ps =>
+      if ps.length > 1 then
+        let (ord, restObs) := match w.obsOrders with
+          | o :: r => (if isPerm o ps then o else ps, r)
+          | [] => (ps, [])
+        { w with cmdQ := w.cmdQ ++ [.openSet ord], obsOrders := restObs,
+                 orders := w.orders ++ ["order=" ++ joinWith "," (ord.map toString)] }
+      else { w with cmdQ := w.cmdQ ++ [c] }
+    | _ => { w with cmdQ := w.cmdQ ++ [c] }) { w with userQ := [] }
 
 def wakeTasksOfPipe (w : World) (k : Nat) : World :=
   { w with taux := w.taux.map fun a =>
@@ -388,14 +437,15 @@ def wakeClosingTasksOfPipe (w : World) (k : Nat) : World :=
 -- ---------------------------------------------------------------- printing
 
 def finish (w : World) (res : String) : World × String :=
-  if w.panicked then ({ w with calls := [], stalledQ := [] }, "panic debug-assert")
+  if w.panicked then ({ w with calls := [], callsDone := [], stalledQ := [], orders := [] }, "panic debug-assert")
   else
+    let w := flushCalls w
     let stalled := (w.stalledQ.mergeSort (fun a b => a.1 ≤ b.1)).map fun (_, p) => s!"stalled({p})"
-    let all := w.calls ++ stalled
+    let all := w.callsDone ++ w.orders ++ stalled
     let out := if all.isEmpty then res else res ++ " " ++ joinWith " " all
-    ({ w with calls := [], stalledQ := [] }, out)
+    ({ w with calls := [], callsDone := [], stalledQ := [], orders := [] }, out)
 
-def run (w : World) (res : String) : World × String := finish (settle w 64) res
+def run (w : World) (res : String) : World × String := finish (settle (forward w) 64) res
 
 def showOutSt : OutSt → String
   | .closed => "closed" | .init s => s!"init(s{s})" | .neg => "neg" | .opn _ _ => "open"
@@ -419,7 +469,7 @@ def stateLine (w : World) : String :=
   let sts := ps.filterMap fun p => (getPeer w p).slot.map fun st => s!"{p}:{showState st}"
   let pend := (w.peers.flatMap fun (p, s) => s.pending.map fun sid => (sid, p)).mergeSort (fun a b => a.1 ≤ b.1)
   let hs := w.peers.any fun (_, s) => s.hsOut.isSome || s.hsIn.isSome
-  let timers := (w.peers.map fun (_, s) => s.timers).foldl (· + ·) 0
+  let timers := (w.peers.map fun (_, s) => s.timers).foldl (· + ·) 0 + w.readyTimers.length
   let vals := (w.peers.map fun (_, s) => s.validations.length).foldl (· + ·) 0
   let tasks := (w.peers.map fun (_, s) => s.tasks.length).foldl (· + ·) 0
   s!"[{joinWith " " sts}] pending=[{joinWith "," (pend.map fun (sid, p) => s!"s{sid}:{p}")}] hs={if hs then 1 else 0} timers={timers} validations={vals} tasks={tasks}"
@@ -432,23 +482,32 @@ def showEv (p : Nat) : EvItem → String
 
 /-- The handle polls: first every queued event (updating `peers` / `pending_validations`), then the
 notifications of peers it knows. -/
+def wakeIfSinkless (w : World) (t : Tid) : World :=
+  if sinkAlive w t then w else setAux w t fun a => { a with woken := true }
+
 def drainEvents (w : World) : World × List String := Id.run do
   let mut w := w
   let mut out : List String := []
-  for (p, e) in w.evq do
+  let evs := w.evq
+  let mut left := evs
+  for (p, e) in evs do
+    left := left.drop 1
+    w := { w with evq := left }
     out := out ++ [showEv p e]
     match e with
     | .opened _ _ t =>
       -- replacing a sink drops the old one
-      match w.view.lookup p with
-      | some old => w := setAux w old fun a => { a with sinkDropped := true, woken := true }
-      | none => pure ()
+      let old := w.view.lookup p
       w := { w with view := (p, t) :: w.view.filter (·.1 ≠ p) }
-    | .closed =>
-      match w.view.lookup p with
-      | some old => w := setAux w old fun a => { a with sinkDropped := true, woken := true }
+      match old with
+      | some o => w := wakeIfSinkless w o
       | none => pure ()
-      w := { w with view := w.view.filter (·.1 ≠ p) }
+    | .closed =>
+      let old := w.view.lookup p
+      w := { w with view := w.view.filter (·.1 ≠ p), clogged := w.clogged.filter (· ≠ p) }
+      match old with
+      | some o => w := wakeIfSinkless w o
+      | none => pure ()
     | .validate _ pipe =>
       match w.hvalid.lookup p with
       | some old => w := { w with validQ := w.validQ ++ [(p, old, false)] }   -- dropped oneshot ⇒ Reject
@@ -465,7 +524,7 @@ def eventsOp (w : World) : Nat → List String → World × List String
   | 0, acc => (w, acc)
   | fuel + 1, acc =>
     let (w, evs) := drainEvents w
-    let w := settle w 64
+    let w := flushCalls (settle w 64)
     if evs.isEmpty || w.panicked then (w, acc ++ evs) else eventsOp w fuel (acc ++ evs)
 
 /-- Resolve a pipe of peer `p` by role and age (0 = newest). -/
@@ -485,14 +544,112 @@ def parseAge (rest : List String) : Nat × List String :=
   | a :: more => if a.startsWith "age=" then ((a.drop 4).toNat?.getD 0, more) else (0, rest)
   | [] => (0, [])
 
-def step (w : World) (line : String) : World × String :=
+def cmdCap : Nat := 4096    -- DEFAULT_CHANNEL_SIZE (checked against the source by the plugin's CONST_TABLE)
+
+def parseList (s : String) : Option (List Nat) :=
+  if s = "-" then some [] else (s.splitOn ",").mapM (·.toNat?)
+
+def showList (l : List Nat) : String :=
+  if l.isEmpty then "-" else joinWith "," ((l.mergeSort (· ≤ ·)).map toString)
+
+/-- Hand a command to the command channel if it has capacity. -/
+def sendCmd (w : World) (c : Cmd) : World × Bool :=
+  if w.userQ.length ≥ cmdCap then (w, false) else ({ w with userQ := w.userQ ++ [c] }, true)
+
+/-- Adapter rule (the same in src/verif/c11.rs): while the connection task of a peer is held back, the user does
+not mix sending modes towards it — which of two non-empty queues the task's `select!` serves first is not
+determined (that interleaving is C12's subject). `true` = the send is not performed (`ignored`). -/
+def mixGuard (w : World) (p : Nat) (isAsync : Bool) : Bool :=
+  w.heldPeers.contains p && (if isAsync then w.pendSync.contains p else w.pendAsync.contains p)
+
+def notePending (w : World) (p : Nat) (isAsync : Bool) : World :=
+  if !w.heldPeers.contains p then w
+  else if isAsync then { w with pendAsync := p :: w.pendAsync } else { w with pendSync := p :: w.pendSync }
+
+/-- `NotificationSink::send_sync_notification` on the queues of task `t`. -/
+def sinkSync (w : World) (t : Tid) (bytes : List Nat) : World × String :=
+  match auxOf w t with
+  | none => (w, "noconn")
+  | some a =>
+    if a.queue.length ≥ w.syncCap then (w, "clogged")
+    else (notePending (setAux w t fun a => { a with queue := a.queue ++ [bytes], woken := true }) a.peer false, "ok")
+
+/-- `NotificationSink::send_async_notification`, polled once. -/
+def sinkAsync (w : World) (t : Tid) (bytes : List Nat) : World × String :=
+  match auxOf w t with
+  | none => (w, "noconn")
+  | some a =>
+    if a.aqueue.length ≥ w.asyncCap then (w, "blocked")
+    else (notePending (setAux w t fun a => { a with aqueue := a.aqueue ++ [bytes], woken := true }) a.peer true, "ok")
+
+def showBatch : BatchRes → String
+  | .ok => "ok" | .ignored ps => s!"ok ignored={showList ps}" | .blocked => "blocked"
+  | .full ps => s!"full={showList ps}" | .none => "none"
+
+/-- The user drops the handle and every sink; `run()` is polled until it returns; then the tasks. -/
+def shutdownOp (w : World) : World × String :=
+  let w := forward { w with cmdHold := false }
+  -- pending validations (polled or still in the event channel) are dropped ⇒ Reject
+  let dropped := (w.hvalid.map fun (p, v) => (p, v, false)) ++
+    (w.evq.filterMap fun (p, e) => match e with | .validate _ pipe => some (p, pipe, false) | _ => none)
+  let w := { w with view := [], sinks := [], evq := [], notifq := [], hvalid := [], validQ := w.validQ ++ dropped,
+                    protoHold := false }
+  let rec proto (w : World) : Nat → World
+    | 0 => w
+    | n + 1 => match nextEvent w with
+      | some w' => if w'.panicked then w' else proto w' n
+      | none => w
+  let w := proto w 1024
+  let w := { w with protoGone := true, evq := [], taux := w.taux.map fun a => { a with woken := true } }
+  let w := settle w 64
+  if w.panicked then ({ w with configured := false }, "panic debug-assert")
+  else ({ w with configured := false, calls := [], callsDone := [], orders := [], stalledQ := [] }, s!"exited tasks={w.taux.length}")
+
+def step (w : World) (lineObs : String) : World × String :=
+  let (line, obs) := match lineObs.splitOn " -> " with
+    | [a, b] => (a, b)
+    | _ => (lineObs, "")
+  let obsOrders := (tokens obs).filterMap fun t =>
+    if t.startsWith "order=" then parseList (t.drop 6).toString else none
+  let w := { w with obsOrders := obsOrders }
   let ts := tokens line
   match ts with
   | "cfg" :: rest =>
     let g (k : String) (d : Nat) : Nat := ((arg? k rest).bind (·.toNat?)).getD d
-    ({ auto := g "auto" 0 = 1, dial := g "dial" 1 = 1, configured := true }, "ok")
+    ({ auto := g "auto" 0 = 1, dial := g "dial" 1 = 1, syncCap := g "sync" 16, asyncCap := g "async" 4,
+       maxSize := g "max" 64, configured := true }, "ok")
   | _ =>
   if !w.configured then (w, "bad-op") else
+  match ts with
+  | ["shutdown"] => shutdownOp w
+  | ["phold"] => ({ w with protoHold := true }, "ok")
+  | ["prelease"] => run { w with protoHold := false, heldConns := [], heldPipePeer := none } "ok"
+  | ["cmdhold"] => ({ w with cmdHold := true }, "ok")
+  | ["cmdfill"] =>
+    let n := cmdCap - w.userQ.length
+    ({ w with cmdHold := true, userQ := w.userQ ++ List.replicate n (.openSet []) }, s!"ok filled={n}")
+  | ["cmdrelease"] => run { w with cmdHold := false } "ok"
+  | ["seths", h] =>
+    match (if h = "-" then some [] else hexBytes? h) with
+    | some bytes => ({ w with hsLocal := bytes }, "ok")
+    | none => (w, "bad-op")
+  | [op, l] =>
+    if ["openb", "tryopenb", "closeb", "tryclosb"].contains op then
+      match parseList l with
+      | none => (w, "bad-op")
+      | some ps =>
+        let view := w.view.map (·.1)
+        let full := w.userQ.length ≥ cmdCap
+        let (c, r) :=
+          if op = "openb" then NotifHandle.openBatch view ps full
+          else if op = "tryopenb" then NotifHandle.tryOpenBatch view ps full
+          else if op = "closeb" then NotifHandle.closeBatch view ps full
+          else NotifHandle.tryCloseBatch view ps full
+        let w := match c with | some c => { w with userQ := w.userQ ++ [c] } | none => w
+        run w (showBatch r)
+    else stepPeer w ts
+  | _ => stepPeer w ts
+where stepPeer (w : World) (ts : List String) : World × String :=
   match ts with
   | ["known", p] =>
     match p.toNat? with
@@ -505,7 +662,7 @@ def step (w : World) (line : String) : World × String :=
       if (w.conns.lookup p).isSome then (w, "ignored") else
       let cap := (((arg? "cap" rest).bind (·.toNat?)).getD 64).max 1
       let drain := (arg? "drain" rest) ≠ some "0"
-      let w := { w with gen := w.gen + 1 }
+      let w := { w with gen := w.gen + 1, heldConns := if w.protoHold then p :: w.heldConns else w.heldConns }
       let w := { w with conns := (p, { gen := w.gen, cap := cap, drain := drain }) :: w.conns,
                         transportQ := w.transportQ ++ [(p, .connEst true 0)] }
       run w "ok"
@@ -513,7 +670,7 @@ def step (w : World) (line : String) : World × String :=
     match p.toNat? with
     | none => (w, "bad-op")
     | some p =>
-      if (w.conns.lookup p).isNone then (w, "ignored") else
+      if (w.conns.lookup p).isNone || (w.protoHold && w.heldConns.contains p) then (w, "ignored") else
       let w := { w with conns := w.conns.filter (·.1 ≠ p), transportQ := w.transportQ ++ [(p, .connClosed)] }
       run w "ok"
   | ["dialfail", p] =>
@@ -560,6 +717,10 @@ def step (w : World) (line : String) : World × String :=
         match findPipe w p (role = "in") age with
         | none => (w, "ignored")
         | some k =>
+          let blocked := w.protoHold && ["hs", "rclose", "rreset", "rsend"].contains op &&
+            (match w.heldPipePeer with | some q => q ≠ p | none => false)
+          if blocked then (w, "ignored") else
+          let w := if w.protoHold && ["hs", "rclose", "rreset", "rsend"].contains op then { w with heldPipePeer := some p } else w
           if op = "hs" then
             run (wakeTasksOfPipe (pipeSet w k fun x => { x with toLocal := x.toLocal ++ [[0xaa, k % 256]] }) k) "ok"
           else if op = "rclose" then
@@ -580,21 +741,92 @@ def step (w : World) (line : String) : World × String :=
             let w := pipeSet w k fun x => { x with toRemote := [] }
             run w s!"[{joinWith " " (frames.map bytesHex)}]"
       | [] => (w, "bad-op")
+    else if op = "hstimeout" then
+      match rest with
+      | [role] =>
+        if role ≠ "in" && role ≠ "out" then (w, "bad-op") else
+        let d : Dir := if role = "in" then .inbound else .outbound
+        if w.hsE.any (fun h => h.peer = p && h.dir = d) then
+          if w.protoHold && (match w.heldPipePeer with | some q => q ≠ p | none => false) then (w, "ignored") else
+          let w := if w.protoHold then { w with heldPipePeer := some p } else w
+          run { w with hsE := w.hsE.map fun h => if h.peer = p && h.dir = d then { h with expired := true } else h } "ok"
+        else (w, "ignored")
+      | _ => (w, "bad-op")
+    else if op = "ssend" || op = "sasend" then
+      -- here `p` is the number of a sink clone
+      match rest with
+      | [payload] =>
+        match (w.sinks[p]?).join with
+        | none => (w, "ignored")
+        | some (t, sp) =>
+          match hexBytes? payload with
+          | none => (w, "bad-op")
+          | some bytes =>
+            if mixGuard w sp (op = "sasend") then (w, "ignored") else
+            let (w, r) := if op = "ssend" then sinkSync w t bytes else sinkAsync w t bytes
+            run w r
+      | _ => (w, "bad-op")
+    else if op = "asend" then
+      match rest with
+      | [payload] =>
+        match hexBytes? payload with
+        | none => (w, "bad-op")
+        | some bytes =>
+          match w.view.lookup p with
+          | none => run w "nopeer"
+          | some t =>
+            if mixGuard w p true then (w, "ignored") else
+            let (w, r) := sinkAsync w t bytes
+            run w (if r = "noconn" then "nopeer" else r)
+      | _ => (w, "bad-op")
     else if !rest.isEmpty && op ≠ "send" then (w, "bad-op")
+    else if op = "sink" then
+      match w.view.lookup p with
+      | some t => ({ w with sinks := w.sinks ++ [some (t, p)] }, s!"ok sink={w.sinks.length}")
+      | none => ({ w with sinks := w.sinks ++ [none] }, s!"none sink={w.sinks.length}")
+    else if op = "sdrop" then
+      match (w.sinks[p]?).join with
+      | none => (w, "ignored")
+      | some (t, _) =>
+        let w := { w with sinks := w.sinks.set p none }
+        run (wakeIfSinkless w t) "ok"
+    else if op = "cfill" then
+      match w.conns.lookup p with
+      | none => (w, "ignored")
+      | some c =>
+        if c.drain then (w, "ignored") else
+        let n := c.cap - c.queued.length
+        run { w with conns := (p, { c with queued := c.queued ++ List.replicate n none }) :: w.conns.filter (·.1 ≠ p) }
+          s!"ok filled={n}"
+    else if op = "cdrain" then
+      match w.conns.lookup p with
+      | none => (w, "ignored")
+      | some c =>
+        let w := c.queued.foldl (fun w q => match q with
+          | some sid => { w with calls := w.calls ++ [(p, s!"open({p},s{sid})")], reqs := w.reqs ++ [(sid, p, c.gen, false)] }
+          | none => { w with calls := w.calls ++ [(p, s!"fc({p})")] }) w
+        run { flushCalls w with conns := (p, { c with queued := [] }) :: w.conns.filter (·.1 ≠ p) } "ok"
     else if op = "hold" then
       -- the connection tasks the peer has now are not polled until `unhold`
       let n := (w.taux.filter (·.peer = p)).length
-      ({ w with taux := w.taux.map fun a => if a.peer = p then { a with held := true } else a }, s!"ok held={n}")
+      ({ w with taux := w.taux.map (fun a => if a.peer = p then { a with held := true } else a),
+                heldPeers := if n > 0 then p :: w.heldPeers else w.heldPeers }, s!"ok held={n}")
     else if op = "unhold" then
-      run { w with taux := w.taux.map fun a => if a.peer = p then { a with held := false } else a } "ok"
+      run { w with taux := w.taux.map (fun a => if a.peer = p then { a with held := false } else a),
+                   heldPeers := w.heldPeers.filter (· ≠ p), pendSync := w.pendSync.filter (· ≠ p),
+                   pendAsync := w.pendAsync.filter (· ≠ p) } "ok"
     else if op = "timer" then
       run { w with readyTimers := w.readyTimers ++ [p] } "ok"
     else if op = "open" then
       if (w.view.lookup p).isSome then run w "already"
-      else run { w with cmdQ := w.cmdQ ++ [(p, true)] } "ok"
+      else
+        let (w, sent) := sendCmd w (.openSet [p])
+        run w (if sent then "ok" else "blocked")
     else if op = "close" then
       if (w.view.lookup p).isNone then run w "ok"
-      else run { w with cmdQ := w.cmdQ ++ [(p, false)] } "ok"
+      else
+        let (w, sent) := sendCmd w (.closeSet [p])
+        run w (if sent then "ok" else "blocked")
     else if op = "accept" || op = "reject" then
       match w.hvalid.lookup p with
       | some vid =>
@@ -609,9 +841,13 @@ def step (w : World) (line : String) : World × String :=
           match w.view.lookup p with
           | none => run w "ok"
           | some t =>
-            match auxOf w t with
-            | none => run w "noconn"
-            | some _ => run (setAux w t fun a => { a with queue := a.queue ++ [bytes], woken := true }) "ok"
+            if mixGuard w p false then (w, "ignored") else
+            let (w, r) := sinkSync w t bytes
+            if r = "clogged" then
+              -- the first clog of the peer sends one `ForceClose` (dropped if the command channel is full)
+              if w.clogged.contains p then run w r
+              else run (sendCmd { w with clogged := p :: w.clogged } (.forceClose p)).1 r
+            else run w r
       | _ => (w, "bad-op")
     else (w, "bad-op")
   | ["events"] =>
